@@ -55,6 +55,7 @@ func init() {
 		"vSameBacking": inSameBacking,
 		"vCountTrue":   inCountTrue,
 		"vPad":         inPad,
+		"vGSM7Text":    inGSM7Text,
 		"vFPContracts": func(it *Interp, fr *frame, cc *ssa.CallCommon, a []Value) Value { it.FPContracts = a[0].(*Term).IsTrue(); return nil },
 		"vConcretizeAlloc": func(it *Interp, fr *frame, cc *ssa.CallCommon, a []Value) Value { it.ConcretizeAlloc = a[0].(*Term).IsTrue(); return nil },
 		"vAllocCheck":  func(it *Interp, fr *frame, cc *ssa.CallCommon, a []Value) Value { return nil },
@@ -378,4 +379,17 @@ func inPad(it *Interp, fr *frame, cc *ssa.CallCommon, a []Value) Value {
 
 func inIdx(it *Interp, fr *frame, cc *ssa.CallCommon, a []Value) Value {
 	return it.constStr(fmt.Sprintf("%s[%d]", it.strArg(a[0]), it.intArg(a[1])))
+}
+
+// vGSM7Text(septets []byte) string: a text whose GSM 7-bit encoding is exactly `septets`
+// (contract stub for the text -> septet step; natively the text is Decode(septets)). The
+// contract - Decode inverts Encode on valid streams - is proved by the C08 jobs.
+func inGSM7Text(it *Interp, fr *frame, cc *ssa.CallCommon, a []Value) Value {
+	v := it.viewOf(a[0])
+	o := it.copyView(v)
+	if it.gsm7Text == nil {
+		it.gsm7Text = map[*Object]view{}
+	}
+	it.gsm7Text[o] = view{obj: o, off: it.c64(0), ln: v.ln, max: v.max}
+	return &Str{Obj: o, Off: it.c64(0), Len: v.ln}
 }
